@@ -70,6 +70,14 @@ def run_C15(repo, tier, seed):
             arr = T(np.array(zs[::-1]))
             if np.max(np.abs(arr - np.array(vals[::-1])) / np.maximum(np.abs(np.array(vals[::-1])), 1e-12)) > 1e-9:
                 failures.append({"key": "array-vs-scalar", "input": case, "observed": "array and scalar arguments give different values"})
+            # levels in no particular order (a rotation: a permutation that is not its own inverse), with a repeated level
+            perm = list(range(2, len(zs))) + [0, 1] + [3]
+            arr = T(np.array([zs[i] for i in perm]))
+            ref = np.array([vals[i] for i in perm])
+            ev += 1
+            if len(arr) != len(ref) or np.max(np.abs(arr - ref) / np.maximum(np.abs(ref), 1e-12)) > 1e-9:
+                failures.append({"key": "array-unordered", "input": dict(case, levels=[zs[i] for i in perm]),
+                                 "observed": "array argument in no particular order: values %r, scalar calls give %r" % (list(arr)[:4], list(ref)[:4])})
         except Exception as e:
             failures.append({"key": "raised-" + type(e).__name__, "input": case, "observed": "%s: %s" % (type(e).__name__, e)})
         if len(samples) < 2:
